@@ -334,32 +334,148 @@ Proof.
   - intros [y [Hy [Hr Hit]]]. exists y. rewrite Hr. auto.
 Qed.
 
+(** *** disguise arithmetic: the disguise has three states *)
+
+Definition bump1 (x : nat) : nat := (x + 1) mod 3.
+
+Lemma iter_bump_lt3 : forall n x, x < 3 -> Nat.iter n bump1 x < 3.
+Proof. destruct n; simpl; intros x Hx; [exact Hx|]. unfold bump1. apply Nat.mod_upper_bound. lia. Qed.
+
+Lemma iter_swap : forall n x, Nat.iter n bump1 (bump1 x) = bump1 (Nat.iter n bump1 x).
+Proof. induction n; simpl; intro x; [reflexivity|]. rewrite IHn. reflexivity. Qed.
+
+Lemma iter_plus : forall a b x, Nat.iter (a + b) bump1 x = Nat.iter a bump1 (Nat.iter b bump1 x).
+Proof. induction a; simpl; intros b x; [reflexivity|]. rewrite IHa. reflexivity. Qed.
+
+(** one or two changes of the canvas' and/or the widget's disguise change the number of
+    "\b " on the line; three may restore it *)
+Lemma sum_changes : forall c s a b, c < 3 -> s < 3 -> 0 < a + b -> a + b <= 2 ->
+  Nat.iter a bump1 c + Nat.iter b bump1 s <> c + s.
+Proof.
+  intros c s a b Hc Hs Hp Hle E.
+  destruct c as [|[|[|c]]]; try lia; destruct s as [|[|[|s]]]; try lia;
+    destruct a as [|[|[|a]]]; try lia; destruct b as [|[|[|b]]]; try lia; vm_compute in E; discriminate.
+Qed.
+
+Definition cnt (w : nat) (ks : list (nat * wkind)) : nat := length (filter (fun x => Nat.eqb (fst x) w) ks).
+
+Lemma wdis_fold_bump_cnt : forall (ks : list (nat * wkind)) l w,
+  wdis_get w (fold_left (fun l x => wdis_bump (fst x) l) ks l) = Nat.iter (cnt w ks) bump1 (wdis_get w l).
+Proof.
+  induction ks as [|[a k] ks IH]; intros l w; [reflexivity|].
+  simpl fold_left. rewrite IH. unfold cnt. simpl filter. simpl fst.
+  destruct (Nat.eqb a w) eqn:E.
+  - apply Nat.eqb_eq in E. subst a. rewrite wdis_get_bump_same. simpl length.
+    change ((wdis_get w l + 1) mod 3) with (bump1 (wdis_get w l)). rewrite iter_swap. reflexivity.
+  - apply Nat.eqb_neq in E. rewrite wdis_get_bump_other by auto. reflexivity.
+Qed.
+
+Lemma cnt_get_inc_same : forall w l, wdis_get w (cnt_inc w l) = S (wdis_get w l).
+Proof. intros. unfold cnt_inc. simpl. rewrite Nat.eqb_refl. reflexivity. Qed.
+
+Lemma cnt_get_inc_other : forall w w' l, w <> w' -> wdis_get w (cnt_inc w' l) = wdis_get w l.
+Proof.
+  intros w w' l Hne. unfold cnt_inc. simpl. destruct (Nat.eqb w' w) eqn:E; [apply Nat.eqb_eq in E; lia|].
+  apply wdis_get_filter_other. exact Hne.
+Qed.
+
+Lemma cnt_fold_inc : forall (ks : list (nat * wkind)) l w,
+  wdis_get w (fold_left (fun l x => cnt_inc (fst x) l) ks l) = wdis_get w l + cnt w ks.
+Proof.
+  induction ks as [|[a k] ks IH]; intros l w; [simpl; unfold cnt; simpl; lia|].
+  simpl fold_left. rewrite IH. unfold cnt. simpl filter. simpl fst.
+  destruct (Nat.eqb a w) eqn:E.
+  - apply Nat.eqb_eq in E. subst a. rewrite cnt_get_inc_same. simpl length. lia.
+  - apply Nat.eqb_neq in E. rewrite cnt_get_inc_other by auto. reflexivity.
+Qed.
+
+Lemma cnt_pos_In : forall w (ks : list (nat * wkind)), 0 < cnt w ks <-> In w (map fst ks).
+Proof.
+  intros w ks. unfold cnt. induction ks as [|[a k] ks IH]; simpl; [split; [lia|tauto]|].
+  destruct (Nat.eqb a w) eqn:E; simpl.
+  - apply Nat.eqb_eq in E. split; [auto|lia].
+  - apply Nat.eqb_neq in E. rewrite IH. tauto.
+Qed.
+
+(** *** delete commands that do not depend on the cursor *)
+
+Definition bigdel (x : stok) : bool := match x with KDel DelAll | KDel (DelZ _) => true | _ => false end.
+Definition survives (q : list stok) (p : plc) : bool :=
+  forallb (fun x => match x with KDel DelAll => false | KDel (DelZ z) => negb (Z.eqb (p_z p) z) | _ => true end) q.
+
+Lemma bigdels_exec : forall q t, forallb bigdel q = true ->
+  forall p, In p (t_plcs (pexec konsole t q)) <-> In p (t_plcs t) /\ survives q p = true.
+Proof.
+  induction q as [|x q IH]; intros t Hq p; [simpl; tauto|].
+  simpl in Hq. apply andb_true_iff in Hq. destruct Hq as [Hx Hq].
+  change (pexec konsole t (x :: q)) with (pexec konsole (pstep konsole t x) q).
+  rewrite (IH _ Hq). simpl survives.
+  destruct x; try discriminate. destruct d; try discriminate; simpl.
+  - split; [tauto|]. intros [_ F]. discriminate.
+  - rewrite filter_In, andb_true_iff. tauto.
+Qed.
+
+Lemma survives_app : forall a b p, survives (a ++ b) p = survives a p && survives b p.
+Proof. intros. unfold survives. apply forallb_app. Qed.
+
+Lemma survives_delz : forall zs p, survives (map (fun z => KDel (DelZ z)) zs) p = true <-> ~ In (p_z p) zs.
+Proof.
+  induction zs as [|z zs IH]; intro p; simpl; [tauto|].
+  rewrite andb_true_iff, negb_true_iff, Z.eqb_neq, IH. intuition.
+Qed.
+
+Lemma bigdel_map_delz : forall zs, forallb bigdel (map (fun z => KDel (DelZ z)) zs) = true.
+Proof. induction zs; simpl; auto. Qed.
+
 (** *** the invariant *)
 
 Definition same_plcs (a b : list plc) : Prop := forall p, In p a <-> In p b.
 
+Notation flushed := (flushed konsole).
+
+Definition lt3 (s : scr) : Prop := s_cdis s < 3 /\ forall wd, wdis_get wd (s_wdis s) < 3.
+
 Definition good (w : world) : Prop :=
-  (forall wd, kittyw wd = false -> wdis_get wd (s_wdis (w_scr w)) = 0)
+  let prev := s_prev (w_scr w) in
+  (* widgets that are not kitty widgets never change their disguise *)
+  (forall wd, kittyw wd = false ->
+     wdis_get wd (s_wdis (w_scr w)) = 0 /\ wdis_get wd (w_nw w) = 0 /\ wdis_get wd (s_wdis (w_bs w)) = 0)
+  /\ lt3 (w_bs w)
+  (* the ghost counters count the disguise changes since the screen buffer was written *)
+  /\ s_cdis (w_scr w) = Nat.iter (w_nall w) bump1 (s_cdis (w_bs w))
+  /\ (forall wd, wdis_get wd (s_wdis (w_scr w))
+                = Nat.iter (wdis_get wd (w_nw w)) bump1 (wdis_get wd (s_wdis (w_bs w))))
+  /\ forallb bigdel (w_queue w) = true
+  (* nothing on the terminal but image lines of the previous canvas *)
+  /\ (forall p, In p (t_plcs (flushed w)) -> In p (plcs_of prev))
   /\ match w_sb w with
-     | None => t_plcs (w_term w) = []
-     | Some sb => (exists base, forall y, sb y = render_row (w_scr w) (s_prev (w_scr w)) base y)
-                  /\ same_plcs (t_plcs (w_term w)) (plcs_of (s_prev (w_scr w)))
+     | None => True
+     | Some sb =>
+       (* the screen buffer is the previous canvas as written; an image line of it is on the
+          terminal unless something that changes its disguise deleted it *)
+       (exists base, forall y, sb y = render_row (w_bs w) prev base y)
+       /\ (forall v p, In v prev -> In p (view_plcs v) ->
+             In p (t_plcs (flushed w)) \/ 0 < w_nall w
+             \/ (is_kitty (v_kind v) = true /\ 0 < wdis_get (v_wid v) (w_nw w)))
      end.
 
 Lemma good_init : good world_init.
-Proof. split; [reflexivity|reflexivity]. Qed.
+Proof.
+  unfold good, world_init, lt3. simpl. repeat split; auto; try lia.
+Qed.
 
 (** the three shapes of [update_views] *)
 Inductive upd_case (prev V : list view) (s : scr) : list stok -> scr -> Prop :=
-| UNone : filter (fun v => negb (view_mem v V)) prev = [] ->
+| UNone : filter (fun v => negb (view_mem v V)) prev = [] -> clears_all V s = false ->
           upd_case prev V s [] (mk_scr V (s_cdis s) (s_wdis s) (s_canv s))
-| UAll : (exists v, In v prev /\ ~ In v V /\ is_kitty (v_kind v) = false) ->
+| UAll : (exists v, In v prev /\ ~ In v V /\ is_kitty (v_kind v) = false) -> clears_all V s = true ->
          upd_case prev V s [KDel DelAll] (mk_scr V ((s_cdis s + 1) mod 3) (s_wdis s) (s_canv s))
 | UZ : forall ks,
     (forall v, In v prev -> ~ In v V -> is_kitty (v_kind v) = true) ->
     NoDup (map fst ks) ->
     (forall x, In x ks -> is_kitty (snd x) = true /\ exists v, In v prev /\ ~ In v V /\ x = (v_wid v, v_kind v)) ->
     (forall v, In v prev -> ~ In v V -> In (v_wid v) (map fst ks)) ->
+    clears_all V s = false ->
     upd_case prev V s (map (fun z => KDel (DelZ z)) (map (fun x => kind_z (snd x)) ks))
              (mk_scr V (s_cdis s) (fold_left (fun l x => wdis_bump (fst x) l) ks (s_wdis s)) (s_canv s)).
 
@@ -376,14 +492,15 @@ Proof.
     - intro Hin. apply In_view_mem in Hin. congruence.
     - destruct (view_mem v V) eqn:E; [|reflexivity]. apply view_mem_In in E. tauto. }
   destruct (existsb (fun v => negb (is_kitty (v_kind v))) diff) eqn:Eex.
-  - simpl. apply UAll. apply existsb_exists in Eex. destruct Eex as [v [Hv Hk]].
+  - simpl. apply UAll; [|exact Eex]. apply existsb_exists in Eex. destruct Eex as [v [Hv Hk]].
     apply Hdiff in Hv. exists v. apply negb_true_iff in Hk. tauto.
   - assert (Hallk : forall v, In v diff -> is_kitty (v_kind v) = true).
     { intros v Hv. destruct (is_kitty (v_kind v)) eqn:E; [reflexivity|]. exfalso.
       assert (existsb (fun v => negb (is_kitty (v_kind v))) diff = true).
       { apply existsb_exists. exists v. rewrite E. auto. } congruence. }
     destruct diff as [|v0 diff'] eqn:Ed.
-    + simpl. apply UNone. exact Ed.
+    + simpl. apply UNone; [exact Ed|]. unfold clears_all, vanished.
+      change (filter (fun v => negb (view_mem v V)) (s_prev s)) with diff. rewrite Ed. reflexivity.
     + cbv beta iota. rewrite <- Ed in *. unfold clear_images_widgets. cbv beta iota.
       set (ws := dedup_w (map (fun v => (v_wid v, v_kind v)) diff)).
       assert (Hws : forall x, In x ws -> exists v, In v diff /\ x = (v_wid v, v_kind v)).
@@ -401,94 +518,136 @@ Proof.
         exists v. apply Hdiff in Hv. tauto.
       * intros v H1 H2. unfold ws. apply (proj1 (dedup_w_fst _ _)). rewrite map_map. simpl.
         apply in_map_iff. exists v. split; [reflexivity|]. apply Hdiff. auto.
+      * exact Eex.
 Qed.
 
 Lemma In_ys_filter : forall s V y it, In it (row_items s V y) <-> In it (items_of s V) /\ p_r (i_plc it) = y.
 Proof. intros. unfold ScreenUrwid.row_items. rewrite filter_In, Z.eqb_eq. tauto. Qed.
 
+
+Lemma In_vanished : forall V s v, In v (vanished V s) <-> In v (s_prev s) /\ ~ In v V.
+Proof.
+  intros V s v. unfold vanished. rewrite filter_In, negb_true_iff. split; intros [H1 H2]; split; auto.
+  - intro Hin. apply In_view_mem in Hin. congruence.
+  - destruct (view_mem v V) eqn:E; [|reflexivity]. apply view_mem_In in E. tauto.
+Qed.
+
+(** the arguments of a public clear_images(widgets...) call: live widgets, consistent with
+    the views on screen *)
+Record wf_api (prev : list view) (ws : list (nat * wkind)) : Prop := {
+  wa_kind : forall x, In x ws -> is_kitty (snd x) = kittyw (fst x);
+  wa_znz : forall x, In x ws -> is_kitty (snd x) = true -> kind_z (snd x) <> 0%Z;
+  wa_z : forall x v, In x ws -> In v prev -> is_kitty (snd x) = true -> is_kitty (v_kind v) = true ->
+         (v_wid v = fst x <-> kind_z (v_kind v) = kind_z (snd x));
+  wa_tracked : forall v, In v prev -> tracked konsole (v_canv v) = true
+}.
+
 (** *** a redraw re-establishes the invariant *)
 
+(** at most two disguise changes hit an image line between two writes of its row (the
+    disguise has three states: a third change may bring the line's bytes back) *)
+Definition count_ok (w : world) (V : list view) : Prop :=
+  w_sb w <> None -> forall v, In v V -> redraw_nall V w + redraw_nw V w (v_wid v) <= 2.
+
 Lemma step_redraw_good : forall w V base,
-  good w -> wf_redraw (s_prev (w_scr w)) V ->
+  good w -> wf_redraw (s_prev (w_scr w)) V -> count_ok w V ->
   good (step w (ORedraw V base))
   /\ s_prev (w_scr (step w (ORedraw V base))) = V
+  /\ w_queue (step w (ORedraw V base)) = []
   /\ same_plcs (t_plcs (w_term (step w (ORedraw V base)))) (plcs_of V).
 Proof.
-  intros [s sb t] V base [Hnk Hsb] Hwf. simpl in Hnk, Hsb, Hwf.
-  destruct Hwf as [Wt Wk Wz Wnz Wr Wd].
-  unfold ScreenUrwid.step. simpl w_scr. simpl w_sb. simpl w_term.
+  intros [s sb t q bs nall nw] V base G Hwf Hcnt.
+  unfold good in G. cbn [w_scr w_sb w_term w_queue w_bs w_nall w_nw] in G.
+  destruct G as [Gnk [Glt [Gc [Gw [Gq [Gsub Gsb]]]]]].
+  cbn [w_scr] in Hwf. destruct Hwf as [Wt Wk Wz Wnz Wr Wd].
+  unfold count_ok in Hcnt. cbn [w_sb] in Hcnt.
+  unfold ScreenUrwid.step. cbn [w_scr w_sb w_term w_queue w_bs w_nall w_nw].
   pose proof (update_views_cases V s) as Hc.
   set (dels := fst (update_views true V s)) in *.
   set (s1 := snd (update_views true V s)) in *.
   assert (Hprev1 : s_prev s1 = V) by (inversion Hc; reflexivity).
   set (new := render_row s1 V base).
-  (* shape of the terminal run *)
-  set (t0 := pexec konsole t [KSyncB]).
+  set (tq := pexec konsole t q).
+  set (t0 := pexec konsole tq [KSyncB]).
   set (t1 := pexec konsole t0 dels).
   assert (Hnewok : forall y, In y ys -> Forall item_ok (snd (new y))).
   { intros y _. unfold new, ScreenUrwid.render_row, ScreenUrwid.row_items. simpl.
     apply Forall_forall. intros it Hit. apply filter_In in Hit. destruct Hit as [Hit _].
     pose proof (items_of_ok s1 V) as F. rewrite Forall_forall in F. apply F; [|exact Hit].
     intros v Hv. apply Wt. apply in_or_app. now right. }
-  assert (Hterm : t_plcs (pexec konsole t ([KSyncB] ++ dels ++ urwid_draw sb new ++ [KSyncE]))
+  assert (Hterm : t_plcs (pexec konsole t (q ++ [KSyncB] ++ dels ++ urwid_draw sb new ++ [KSyncE]))
                   = fold_left (fun T it => item_apply it T) (resent_items sb new ys) (t_plcs t1)).
-  { rewrite pexec_app. fold t0. rewrite pexec_app. fold t1. rewrite pexec_app.
+  { rewrite pexec_app. fold tq. rewrite pexec_app. fold t0. rewrite pexec_app. fold t1. rewrite pexec_app.
     unfold ScreenUrwid.urwid_draw. destruct (draw_exec sb new ys t1 Hnewok) as [E1 _].
     simpl. exact E1. }
-  (* the deletes *)
-  assert (Ht0 : t_plcs t0 = t_plcs t) by reflexivity.
-  (* invariant part 1: non-kitty widgets are never bumped *)
-  assert (Hnk1 : forall wd, kittyw wd = false -> wdis_get wd (s_wdis s1) = 0).
-  { intros wd Hwd. inversion Hc as [Hd E1 E2|Hd E1 E2|ks Hallk Hnd Hks Hcov E1 E2]; simpl; try (apply Hnk; exact Hwd).
-    rewrite wdis_fold_bump by exact Hnd.
-    destruct (in_dec Nat.eq_dec wd (map fst ks)) as [Hin|_]; [|apply Hnk; exact Hwd].
-    exfalso. apply in_map_iff in Hin. destruct Hin as [x [Hx1 Hx2]].
-    destruct (Hks x Hx2) as [Hk [v [Hv1 [Hv2 ->]]]]. simpl in *. subst wd.
-    rewrite (Wk v) in Hk by (apply in_or_app; now left). congruence. }
-  (* the main equivalence *)
+  assert (Ht0 : t_plcs t0 = t_plcs tq) by reflexivity.
+  (* the ghost view of this redraw's own disguise changes *)
+  set (a := redraw_nall V (mk_world s sb t q bs nall nw)).
+  set (b := redraw_nw V (mk_world s sb t q bs nall nw)).
+  assert (Hlt1 : lt3 s1 /\ s_cdis s1 = Nat.iter a bump1 (s_cdis bs)
+                 /\ (forall wd, wdis_get wd (s_wdis s1) = Nat.iter (b wd) bump1 (wdis_get wd (s_wdis bs)))
+                 /\ (forall wd, kittyw wd = false -> b wd = 0)).
+  { destruct Glt as [Glc Glw].
+    assert (Hcd : s_cdis s1 = Nat.iter a bump1 (s_cdis bs)).
+    { unfold a, redraw_nall. cbn [w_scr w_nall].
+      inversion Hc as [Hd Hca E1 E2|Hd Hca E1 E2|ks Hallk Hnd Hks Hcov Hca E1 E2]; rewrite Hca; simpl; rewrite Gc; reflexivity. }
+    assert (Hwd : forall wd, wdis_get wd (s_wdis s1) = Nat.iter (b wd) bump1 (wdis_get wd (s_wdis bs))).
+    { intro wd. unfold b, redraw_nw. cbn [w_scr w_nw].
+      inversion Hc as [Hd Hca E1 E2|Hd Hca E1 E2|ks Hallk Hnd Hks Hcov Hca E1 E2]; rewrite Hca; simpl.
+      - unfold vanished. rewrite Hd. simpl. rewrite Nat.add_0_r. apply Gw.
+      - rewrite Nat.add_0_r. apply Gw.
+      - rewrite wdis_fold_bump by exact Hnd. rewrite Gw.
+        destruct (in_dec Nat.eq_dec wd (map fst ks)) as [Hin|Hni].
+        + assert (Hex : existsb (fun v => Nat.eqb (v_wid v) wd) (vanished V s) = true).
+          { apply in_map_iff in Hin. destruct Hin as [x [Hx1 Hx2]].
+            destruct (Hks x Hx2) as [_ [v [Hv1 [Hv2 ->]]]]. simpl in Hx1.
+            apply existsb_exists. exists v. split; [apply In_vanished; auto|apply Nat.eqb_eq; exact Hx1]. }
+          rewrite Hex. replace (wdis_get wd nw + 1) with (S (wdis_get wd nw)) by lia. reflexivity.
+        + assert (Hex : existsb (fun v => Nat.eqb (v_wid v) wd) (vanished V s) = false).
+          { destruct (existsb (fun v => Nat.eqb (v_wid v) wd) (vanished V s)) eqn:E; [|reflexivity].
+            exfalso. apply Hni. apply existsb_exists in E. destruct E as [v [Hv E]].
+            apply Nat.eqb_eq in E. subst wd. apply In_vanished in Hv. apply Hcov; tauto. }
+          rewrite Hex. rewrite Nat.add_0_r. reflexivity. }
+    split; [|split; [exact Hcd|split; [exact Hwd|]]].
+    - split; [rewrite Hcd; apply iter_bump_lt3; exact Glc|intro wd; rewrite Hwd; apply iter_bump_lt3; apply Glw].
+    - intros wd Hk. destruct (Gnk wd Hk) as [_ [N0 B0]].
+      unfold b, redraw_nw. cbn [w_scr w_nw]. rewrite N0.
+      destruct (negb (clears_all V s) && existsb (fun v => Nat.eqb (v_wid v) wd) (vanished V s)) eqn:E; [|reflexivity].
+      exfalso. apply andb_true_iff in E. destruct E as [E1 E2]. apply negb_true_iff in E1.
+      apply existsb_exists in E2. destruct E2 as [v [Hv E2]]. apply Nat.eqb_eq in E2. subst wd.
+      assert (Hkv : is_kitty (v_kind v) = true).
+      { destruct (is_kitty (v_kind v)) eqn:Ek; [reflexivity|]. exfalso.
+        assert (clears_all V s = true).
+        { unfold clears_all. apply existsb_exists. exists v. rewrite Ek. auto. } congruence. }
+      apply In_vanished in Hv. rewrite (Wk v) in Hkv by (apply in_or_app; tauto). congruence. }
+  destruct Hlt1 as [Hlt1 [Hcd1 [Hwd1 Hnk1]]].
+  (* what the deletes of this redraw leave *)
+  assert (Htq : forall p, In p (t_plcs tq) -> exists v, In v (s_prev s) /\ In p (view_plcs v)).
+  { intros p Hp. apply In_plcs_of. apply Gsub. exact Hp. }
   assert (Hmain : same_plcs (fold_left (fun T it => item_apply it T) (resent_items sb new ys) (t_plcs t1)) (plcs_of V)).
   { intro p. split.
     - (* nothing else is on the terminal *)
       intro Hin. apply fold_apply_sub in Hin. destruct Hin as [Hin|Hin].
-      + (* it was there before and survived the deletes *)
-        destruct sb as [sbf|].
-        * destruct Hsb as [_ Hsame].
-          assert (Hp0 : In p (t_plcs t) -> exists v, In v (s_prev s) /\ In p (view_plcs v)).
-          { intro Hp. apply Hsame in Hp. apply In_plcs_of in Hp. exact Hp. }
-          unfold t1 in Hin.
-          inversion Hc as [Hd E1 E2|Hd E1 E2|ks Hallk Hnd Hks Hcov E1 E2].
-          -- (* no view disappeared *)
-             rewrite <- E1 in Hin. change (In p (t_plcs t)) in Hin.
-             destruct (Hp0 Hin) as [v [Hv Hpv]]. apply In_plcs_of. exists v. split; [|exact Hpv].
-             destruct (view_mem v V) eqn:Em; [apply view_mem_In; exact Em|].
-             exfalso. assert (In v (filter (fun v => negb (view_mem v V)) (s_prev s))).
-             { apply filter_In. rewrite Em. auto. } rewrite Hd in H0. destruct H0.
-          -- rewrite <- E1 in Hin. simpl in Hin. destruct Hin.
-          -- rewrite <- E1 in Hin.
-             destruct (delz_exec (map (fun x => kind_z (snd x)) ks) t0) as [Ez _].
-             apply Ez in Hin. destruct Hin as [Hin Hnz]. rewrite Ht0 in Hin.
-             destruct (Hp0 Hin) as [v [Hv Hpv]]. apply In_plcs_of. exists v. split; [|exact Hpv].
-             destruct (view_mem v V) eqn:Em; [apply view_mem_In; exact Em|].
-             exfalso. assert (Hnv : ~ In v V) by (intro Hi; apply In_view_mem in Hi; congruence).
-             apply Hnz. specialize (Hcov v Hv Hnv). apply in_map_iff in Hcov.
-             destruct Hcov as [x [Hx1 Hx2]]. apply in_map_iff. exists x. split; [|exact Hx2].
-             destruct (Hks x Hx2) as [Hkx [v2 [Hv2 [Hnv2 ->]]]]. simpl in *.
-             destruct (view_plcs_z v p Hpv) as [-> _]. symmetry.
-             apply (Wz v v2); try (apply in_or_app; now left); auto.
-        * (* after clear(): the terminal was empty *)
-          unfold t1 in Hin. exfalso.
-          assert (Hsub : forall ds t', t_plcs t' = [] -> (forall x, In x ds -> exists d, x = KDel d) ->
-                                       t_plcs (pexec konsole t' ds) = []).
-          { induction ds as [|x ds IH]; intros t' He Hd; [exact He|]. simpl. apply IH.
-            - destruct (Hd x (or_introl eq_refl)) as [d ->]. simpl. rewrite He. destruct d; reflexivity.
-            - intros; apply Hd; now right. }
-          rewrite Hsub in Hin; [destruct Hin|rewrite Ht0; exact Hsb|].
-          intros x Hx. inversion Hc as [Hd E1 E2|Hd E1 E2|ks Hallk Hnd Hks Hcov E1 E2]; rewrite <- E1 in Hx.
-          -- destruct Hx.
-          -- destruct Hx as [<-|[]]. eauto.
-          -- apply in_map_iff in Hx. destruct Hx as [z [<- _]]. eauto.
-      + (* it was written by this redraw *)
-        apply in_map_iff in Hin. destruct Hin as [it [<- Hit]].
+      + unfold t1 in Hin.
+        inversion Hc as [Hd Hca E1 E2|Hd Hca E1 E2|ks Hallk Hnd Hks Hcov Hca E1 E2].
+        * rewrite <- E1 in Hin. change (In p (t_plcs tq)) in Hin.
+          destruct (Htq p Hin) as [v [Hv Hpv]]. apply In_plcs_of. exists v. split; [|exact Hpv].
+          destruct (view_mem v V) eqn:Em; [apply view_mem_In; exact Em|].
+          exfalso. assert (Hf : In v (filter (fun v => negb (view_mem v V)) (s_prev s))).
+          { apply filter_In. rewrite Em. auto. } rewrite Hd in Hf. destruct Hf.
+        * rewrite <- E1 in Hin. simpl in Hin. destruct Hin.
+        * rewrite <- E1 in Hin.
+          destruct (delz_exec (map (fun x => kind_z (snd x)) ks) t0) as [Ez _].
+          apply Ez in Hin. destruct Hin as [Hin Hnz]. rewrite Ht0 in Hin.
+          destruct (Htq p Hin) as [v [Hv Hpv]]. apply In_plcs_of. exists v. split; [|exact Hpv].
+          destruct (view_mem v V) eqn:Em; [apply view_mem_In; exact Em|].
+          exfalso. assert (Hnv : ~ In v V) by (intro Hi; apply In_view_mem in Hi; congruence).
+          apply Hnz. specialize (Hcov v Hv Hnv). apply in_map_iff in Hcov.
+          destruct Hcov as [x [Hx1 Hx2]]. apply in_map_iff. exists x. split; [|exact Hx2].
+          destruct (Hks x Hx2) as [Hkx [v2 [Hv2 [Hnv2 ->]]]]. simpl in *.
+          destruct (view_plcs_z v p Hpv) as [-> _]. symmetry.
+          apply (Wz v v2); try (apply in_or_app; now left); auto.
+      + apply in_map_iff in Hin. destruct Hin as [it [<- Hit]].
         apply resent_items_In in Hit. destruct Hit as [y [Hy [_ Hit]]].
         unfold new, ScreenUrwid.render_row in Hit. simpl in Hit. apply In_ys_filter in Hit.
         destruct Hit as [Hit _]. apply In_items_of in Hit. destruct Hit as [v [Hv [Hp _]]].
@@ -501,39 +660,62 @@ Proof.
       { unfold new, ScreenUrwid.render_row. simpl. apply In_ys_filter. split; [|reflexivity].
         apply In_items_of. exists v'. simpl. auto. }
       destruct (resend sb new (p_r p)) eqn:Er.
-      + (* its row is written *)
-        apply fold_apply_placed.
+      + apply fold_apply_placed.
         * apply in_map_iff. exists it. split; [reflexivity|]. apply resent_items_In. exists (p_r p). auto.
         * intros it' Hit' Hne. apply resent_items_In in Hit'. destruct Hit' as [y [_ [_ Hit']]].
           unfold new, ScreenUrwid.render_row in Hit'. simpl in Hit'. apply In_ys_filter in Hit'.
           destruct Hit' as [Hit' _]. apply In_items_of in Hit'. destruct Hit' as [v2 [Hv2 [Hp2 _]]].
           apply Wd; [exact Hp| |congruence]. apply In_plcs_of. exists v2. auto.
-      + (* its row is not written: the line was there, was not deleted and is not hit *)
+      + (* its row is not written: the bytes are those of the screen buffer, so no disguise
+           change hit the line, so nothing deleted it *)
         pose proof Er as Er0.
         destruct sb as [sbf|]; [|discriminate]. simpl in Er. apply negb_false_iff in Er.
-        apply row_eqb_items in Er. destruct Hsb as [[base0 Hrows] Hsame].
+        apply row_eqb_items in Er. destruct Gsb as [[base0 Hrows] Hon].
         rewrite Hrows in Er. unfold ScreenUrwid.render_row in Er. simpl in Er.
-        assert (Hold : In it (row_items s (s_prev s) (p_r p))).
+        assert (Hold : In it (row_items bs (s_prev s) (p_r p))).
         { rewrite Er. unfold new, ScreenUrwid.render_row in Hit. exact Hit. }
         apply In_ys_filter in Hold. destruct Hold as [Hold _]. apply In_items_of in Hold.
         destruct Hold as [v [Hv [Hpv [Hkv Hdv]]]]. simpl in Hpv, Hkv, Hdv.
-        assert (Hin0 : In p (t_plcs t)).
-        { apply Hsame. apply In_plcs_of. exists v. auto. }
         assert (Hzv : kind_z (v_kind v) = kind_z (v_kind v')).
         { destruct (view_plcs_z v p Hpv) as [<- _]. destruct (view_plcs_z v' p Hpv') as [E _]. exact E. }
         assert (HIv : In v (s_prev s ++ V)) by (apply in_or_app; now left).
         assert (HIv' : In v' (s_prev s ++ V)) by (apply in_or_app; now right).
+        specialize (Hcnt ltac:(discriminate) v' Hv'). fold a in Hcnt. fold b in Hcnt.
+        destruct Glt as [Glc Glw].
+        (* no change at all *)
+        assert (Hzero : a = 0 /\ b (v_wid v') = 0 /\ (is_kitty (v_kind v') = true -> v_wid v = v_wid v')).
+        { unfold dsum in Hdv. rewrite Hcd1, Hwd1 in Hdv.
+          destruct (is_kitty (v_kind v')) eqn:Ek.
+          - assert (Ew : v_wid v = v_wid v') by (apply (Wz v v'); auto; congruence).
+            rewrite Ew in Hdv.
+            destruct (Nat.eq_dec (a + b (v_wid v')) 0) as [E0|Hne]; [split; [lia|split; [lia|auto]]|].
+            exfalso. revert Hdv. apply sum_changes; auto; lia.
+          - assert (Kv : kittyw (v_wid v) = false) by (rewrite <- (Wk v HIv); congruence).
+            assert (Kv' : kittyw (v_wid v') = false) by (rewrite <- (Wk v' HIv'); exact Ek).
+            destruct (Gnk _ Kv) as [_ [_ B0]]. destruct (Gnk _ Kv') as [_ [N0' B0']].
+            rewrite B0, B0' in Hdv.
+            assert (Hb0 : b (v_wid v') = 0) by (apply Hnk1; exact Kv').
+            rewrite Hb0 in Hdv. simpl in Hdv.
+            destruct (Nat.eq_dec a 0) as [E0|Hne]; [split; [exact E0|split; [exact Hb0|discriminate]]|].
+            exfalso. rewrite Hb0 in Hcnt.
+            assert (S0 : Nat.iter a bump1 (s_cdis bs) + Nat.iter 0 bump1 0 <> s_cdis bs + 0).
+            { apply sum_changes; auto; lia. }
+            simpl in S0. lia. }
+        destruct Hzero as [Ha [Hb Hwid]].
+        assert (Hnall : nall = 0 /\ clears_all V s = false).
+        { unfold a, redraw_nall in Ha. cbn [w_scr w_nall] in Ha.
+          destruct (clears_all V s); [discriminate|]. auto. }
+        destruct Hnall as [Hn0 Hca].
+        assert (Hin0 : In p (t_plcs tq)).
+        { destruct (Hon v p Hv Hpv) as [Hf|[Hf|[Hk Hf]]].
+          - exact Hf.
+          - cbn [w_nall] in Hf. lia.
+          - cbn [w_nw] in Hf. exfalso. rewrite <- Hkv in Hk. simpl in Hk.
+            specialize (Hwid Hk). unfold b, redraw_nw in Hb. cbn [w_nw] in Hb. rewrite <- Hwid in Hb. lia. }
         assert (Hin1 : In p (t_plcs t1)).
-        { unfold t1. inversion Hc as [Hd E1 E2|Hd E1 E2|ks Hallk Hnd Hks Hcov E1 E2].
+        { unfold t1. inversion Hc as [Hd Hca' E1 E2|Hd Hca' E1 E2|ks Hallk Hnd Hks Hcov Hca' E1 E2].
           - exact Hin0.
-          - (* delete-all: the canvas disguise changed, so the row differs: contradiction *)
-            exfalso. rewrite <- E2 in Hdv. unfold dsum in Hdv. simpl in Hdv.
-            destruct (is_kitty (v_kind v')) eqn:Ek.
-            + assert (Ew : v_wid v = v_wid v') by (apply (Wz v v'); auto; congruence).
-              rewrite Ew in Hdv. pose proof (bump_ne (s_cdis s)). lia.
-            + rewrite (Hnk (v_wid v)) in Hdv by (rewrite <- (Wk v HIv); congruence).
-              rewrite (Hnk (v_wid v')) in Hdv by (rewrite <- (Wk v' HIv'); exact Ek).
-              pose proof (bump_ne (s_cdis s)). lia.
+          - congruence.
           - destruct (delz_exec (map (fun x => kind_z (snd x)) ks) t0) as [Ez _].
             apply Ez. rewrite Ht0. split; [exact Hin0|].
             intro Hz. apply in_map_iff in Hz. destruct Hz as [x [Hx1 Hx2]].
@@ -541,46 +723,172 @@ Proof.
             destruct (view_plcs_z v' p Hpv') as [Ezp _]. rewrite Ezp in Hx1.
             assert (HIv2 : In v2 (s_prev s ++ V)) by (apply in_or_app; now left).
             destruct (is_kitty (v_kind v')) eqn:Ek.
-            + (* the widget was bumped, so the row differs: contradiction *)
-              assert (Ew2 : v_wid v2 = v_wid v') by (apply (Wz v2 v'); auto).
-              assert (Ew : v_wid v = v_wid v') by (apply (Wz v v'); auto; congruence).
-              rewrite <- E2 in Hdv. unfold dsum in Hdv. simpl in Hdv.
-              rewrite wdis_fold_bump in Hdv by exact Hnd. rewrite Ew in Hdv.
-              destruct (in_dec Nat.eq_dec (v_wid v') (map fst ks)) as [_|Hni].
-              * pose proof (bump_ne (wdis_get (v_wid v') (s_wdis s))). lia.
-              * apply Hni. rewrite <- Ew2. apply in_map_iff. exists (v_wid v2, v_kind v2). auto.
-            + (* an iTerm2 line has z = 0, no kitty widget has *)
-              destruct (tracked_kind v' (Wt v' HIv')) as [Hy'|[_ [Hi' _]]]; [congruence|].
+            + assert (Ew2 : v_wid v2 = v_wid v') by (apply (Wz v2 v'); auto).
+              unfold b, redraw_nw in Hb. cbn [w_scr w_nw] in Hb. rewrite Hca in Hb. simpl in Hb.
+              assert (Hex : existsb (fun v => Nat.eqb (v_wid v) (v_wid v')) (vanished V s) = true).
+              { apply existsb_exists. exists v2. split; [apply In_vanished; auto|apply Nat.eqb_eq; exact Ew2]. }
+              rewrite Hex in Hb. lia.
+            + destruct (tracked_kind v' (Wt v' HIv')) as [Hy'|[_ [Hi' _]]]; [congruence|].
               rewrite Hi' in Hx1. simpl in Hx1. apply (Wnz v2 HIv2 Hkx). exact Hx1. }
         apply fold_apply_keep; [exact Hin1|].
         intros it' Hit'. apply resent_items_In in Hit'. destruct Hit' as [y [_ [Hry Hit']]].
         unfold new, ScreenUrwid.render_row in Hit'. simpl in Hit'. apply In_ys_filter in Hit'.
         destruct Hit' as [Hit' Hrow']. apply In_items_of in Hit'. destruct Hit' as [v2 [Hv2 [Hp2 _]]].
         destruct (plc_eq_dec (i_plc it') p) as [Ep|Hnp].
-        * (* the same line in a written row: then p's row is written: contradiction *)
-          exfalso. rewrite Ep in Hrow'. subst y. congruence.
+        * exfalso. rewrite Ep in Hrow'. subst y. congruence.
         * apply Wd; [exact Hp| |congruence]. apply In_plcs_of. exists v2. auto. }
-  split; [|split].
-  - split; [exact Hnk1|]. cbn [w_sb w_scr w_term]. split.
-    + exists base. intro y. rewrite Hprev1. reflexivity.
-    + rewrite Hprev1. rewrite <- Hterm in Hmain. exact Hmain.
-  - exact Hprev1.
-  - rewrite <- Hterm in Hmain. exact Hmain.
+  rewrite <- Hterm in Hmain.
+  split; [|split; [exact Hprev1|split; [reflexivity|exact Hmain]]].
+  unfold good. cbn [w_scr w_sb w_term w_queue w_bs w_nall w_nw].
+  split; [|split; [exact Hlt1|split; [reflexivity|split; [intro; reflexivity|split; [reflexivity|split]]]]].
+  - intros wd Hk. destruct (Gnk wd Hk) as [_ [_ B0]].
+    assert (Z1 : wdis_get wd (s_wdis s1) = 0) by (rewrite Hwd1, (Hnk1 wd Hk), B0; reflexivity).
+    split; [exact Z1|split; [reflexivity|exact Z1]].
+  - intros p Hp. rewrite Hprev1. apply Hmain. unfold ScreenUrwid.flushed in Hp. simpl in Hp. exact Hp.
+  - split; [exists base; intro y; rewrite Hprev1; reflexivity|].
+    intros v p Hv Hpv. left. unfold ScreenUrwid.flushed. simpl. apply Hmain. rewrite Hprev1 in Hv.
+    apply In_plcs_of. exists v. auto.
 Qed.
 
-(** clear(): everything is deleted and the whole screen will be written again *)
-Lemma step_clear_good : forall w, good w -> good (step w OClear) /\ t_plcs (w_term (step w OClear)) = [].
+(** clear(): the delete-all is queued, the whole screen will be written again *)
+Lemma step_clear_good : forall w, good w ->
+  good (step w OClear) /\ t_plcs (flushed (step w OClear)) = [].
 Proof.
-  intros [s sb t] [Hnk _]. unfold ScreenUrwid.step, clear_stream, clear_images_all. simpl.
-  split; [split|]; try reflexivity. exact Hnk.
+  intros [s sb t q bs nall nw] G. unfold good in G. cbn [w_scr w_sb w_term w_queue w_bs w_nall w_nw] in G.
+  destruct G as [Gnk [Glt [Gc [Gw [Gq [Gsub Gsb]]]]]].
+  unfold ScreenUrwid.step, clear_stream, clear_images_all. cbn [fst snd w_scr w_queue w_term w_nall w_nw w_bs].
+  assert (Hq : forallb bigdel (q ++ [KDel DelAll]) = true) by (rewrite forallb_app, Gq; reflexivity).
+  assert (He : t_plcs (pexec konsole t (q ++ [KDel DelAll])) = []) by (rewrite pexec_app; reflexivity).
+  split; [|exact He].
+  unfold good. cbn [w_scr w_sb w_term w_queue w_bs w_nall w_nw s_prev s_cdis s_wdis].
+  repeat split; auto.
+  - apply Gnk; assumption.
+  - apply Gnk; assumption.
+  - apply Gnk; assumption.
+  - apply Glt.
+  - apply Glt.
+  - simpl. rewrite Gc. reflexivity.
+  - intros p Hp. unfold ScreenUrwid.flushed in Hp. cbn [w_term w_queue] in Hp. rewrite He in Hp. destruct Hp.
 Qed.
 
-(** a sequence of operations each of whose redraws is well-formed in the state it meets *)
+(** the public clear_images() *)
+Lemma step_api_good : forall w ws now, good w -> wf_api (s_prev (w_scr w)) ws -> good (step w (OApi ws now)).
+Proof.
+  intros [s sb t q bs nall nw] ws now G Ha. unfold good in G.
+  cbn [w_scr w_sb w_term w_queue w_bs w_nall w_nw] in G, Ha.
+  destruct G as [Gnk [Glt [Gc [Gw [Gq [Gsub Gsb]]]]]]. destruct Ha as [Ak Anz Az At].
+  unfold ScreenUrwid.step, api_clear_images. cbn [w_scr w_sb w_term w_queue w_bs w_nall w_nw].
+  destruct ws as [|x0 ws0].
+  - (* everything *)
+    unfold clear_images_all. cbn [fst snd].
+    assert (Hfl : t_plcs (pexec konsole (pexec konsole t (fst (if now then ([KDel DelAll], @nil stok) else ([], [KDel DelAll]))))
+                                (q ++ snd (if now then ([KDel DelAll], @nil stok) else ([], [KDel DelAll])))) = []).
+    { destruct now; simpl fst; simpl snd.
+      - rewrite app_nil_r. destruct (t_plcs (pexec konsole (pexec konsole t [KDel DelAll]) q)) as [|p0 l] eqn:E; [reflexivity|].
+        exfalso. assert (Hin : In p0 (t_plcs (pexec konsole (pexec konsole t [KDel DelAll]) q))) by (rewrite E; now left).
+        apply (bigdels_exec q _ Gq) in Hin. destruct Hin as [Hin _]. destruct Hin.
+      - rewrite pexec_app. reflexivity. }
+    unfold good. cbn [w_scr w_sb w_term w_queue w_bs w_nall w_nw].
+    destruct now; cbn [fst snd s_prev s_cdis s_wdis] in *.
+    + repeat split; auto; try (apply Gnk; assumption); try apply Glt.
+      * rewrite Gc. reflexivity.
+      * rewrite app_nil_r. exact Gq.
+      * intros p Hp. unfold ScreenUrwid.flushed in Hp. cbn [w_term w_queue] in Hp. rewrite Hfl in Hp. destruct Hp.
+      * destruct sb as [sbf|]; [|exact I]. destruct Gsb as [Hb _]. split; [exact Hb|].
+        intros v p Hv Hpv. right. left. cbn [w_nall]. lia.
+    + repeat split; auto; try (apply Gnk; assumption); try apply Glt.
+      * rewrite Gc. reflexivity.
+      * rewrite forallb_app, Gq. reflexivity.
+      * intros p Hp. unfold ScreenUrwid.flushed in Hp. cbn [w_term w_queue] in Hp.
+        rewrite Hfl in Hp. destruct Hp.
+      * destruct sb as [sbf|]; [|exact I]. destruct Gsb as [Hb _]. split; [exact Hb|].
+        intros v p Hv Hpv. right. left. cbn [w_nall]. lia.
+  - (* the kitty widgets among the arguments *)
+    set (ws := x0 :: ws0) in *. unfold clear_images_widgets.
+    set (ks := filter (fun w => is_kitty (snd w)) ws).
+    set (dz := map (fun w : nat * wkind => KDel (DelZ (kind_z (snd w)))) ks).
+    assert (Hdz : dz = map (fun z => KDel (DelZ z)) (map (fun x : nat * wkind => kind_z (snd x)) ks)).
+    { unfold dz. rewrite map_map. reflexivity. }
+    assert (Hks : forall x, In x ks -> In x ws /\ is_kitty (snd x) = true).
+    { intros x Hx. unfold ks in Hx. apply filter_In in Hx. exact Hx. }
+    (* placements once flushed: those that survive the new deletes too *)
+    assert (Hfl : forall p, In p (t_plcs (pexec konsole (pexec konsole t (fst (if now then (dz, @nil stok) else ([], dz))))
+                                                (q ++ snd (if now then (dz, @nil stok) else ([], dz)))))
+                            <-> In p (t_plcs (pexec konsole t q)) /\ ~ In (p_z p) (map (fun x : nat * wkind => kind_z (snd x)) ks)).
+    { intro p. assert (Bd : forallb bigdel dz = true) by (rewrite Hdz; apply bigdel_map_delz).
+      destruct now; simpl fst; simpl snd.
+      - rewrite app_nil_r. rewrite (bigdels_exec q _ Gq). rewrite (bigdels_exec dz _ Bd).
+        rewrite (bigdels_exec q _ Gq). rewrite Hdz, survives_delz. tauto.
+      - change (pexec konsole t []) with t. rewrite pexec_app. rewrite (bigdels_exec dz _ Bd).
+        rewrite Hdz, survives_delz. tauto. }
+    unfold good. cbn [w_scr w_sb w_term w_queue w_bs w_nall w_nw].
+    assert (Hgoal :
+      (forall wd, kittyw wd = false ->
+         wdis_get wd (fold_left (fun l w => wdis_bump (fst w) l) ks (s_wdis s)) = 0
+         /\ wdis_get wd (fold_left (fun l x => cnt_inc (fst x) l) ks nw) = 0 /\ wdis_get wd (s_wdis bs) = 0)
+      /\ (forall wd, wdis_get wd (fold_left (fun l w => wdis_bump (fst w) l) ks (s_wdis s))
+                     = Nat.iter (wdis_get wd (fold_left (fun l x => cnt_inc (fst x) l) ks nw)) bump1 (wdis_get wd (s_wdis bs)))).
+    { split.
+      - intros wd Hk. destruct (Gnk wd Hk) as [S0 [N0 B0]].
+        assert (C0 : cnt wd ks = 0).
+        { destruct (cnt wd ks) eqn:E; [reflexivity|]. exfalso.
+          assert (Hin : In wd (map fst ks)) by (apply cnt_pos_In; lia).
+          apply in_map_iff in Hin. destruct Hin as [x [Hx1 Hx2]]. destruct (Hks x Hx2) as [Hxw Hxk].
+          rewrite (Ak x Hxw), Hx1 in Hxk. congruence. }
+        rewrite wdis_fold_bump_cnt, cnt_fold_inc, C0, S0, N0. simpl. auto.
+      - intro wd. rewrite wdis_fold_bump_cnt, cnt_fold_inc, Gw. rewrite Nat.add_comm. rewrite iter_plus. reflexivity. }
+    destruct Hgoal as [Hg1 Hg2].
+    cbn [fst snd s_prev s_cdis s_wdis].
+    assert (Hq' : forallb bigdel (q ++ snd (if now then (dz, @nil stok) else ([], dz))) = true).
+    { destruct now; simpl snd; [rewrite app_nil_r; exact Gq|].
+      rewrite forallb_app, Gq, Hdz. simpl. apply bigdel_map_delz. }
+    destruct now; cbn [fst snd] in *.
+    + split; [exact Hg1|split; [exact Glt|split; [exact Gc|split; [exact Hg2|split; [exact Hq'|split]]]]].
+      * intros p Hp. unfold ScreenUrwid.flushed in Hp. cbn [w_term w_queue] in Hp. apply Hfl in Hp.
+        apply Gsub. unfold ScreenUrwid.flushed. cbn [w_term w_queue]. tauto.
+      * destruct sb as [sbf|]; [|exact I]. destruct Gsb as [Hb Hon]. split; [exact Hb|].
+        intros v p Hv Hpv. destruct (Hon v p Hv Hpv) as [Hf|[Hf|[Hk Hf]]].
+        -- destruct (in_dec Z.eq_dec (p_z p) (map (fun x : nat * wkind => kind_z (snd x)) ks)) as [Hz|Hz].
+           ++ right. right. apply in_map_iff in Hz. destruct Hz as [x [Hx1 Hx2]]. destruct (Hks x Hx2) as [Hxw Hxk].
+              destruct (view_plcs_z v p Hpv) as [Ezp _]. rewrite Ezp in Hx1.
+              assert (Hkv : is_kitty (v_kind v) = true).
+              { destruct (tracked_kind v (At v Hv)) as [Hy|[_ [Hi _]]]; [exact Hy|].
+                exfalso. rewrite Hi in Hx1. simpl in Hx1. apply (Anz x Hxw Hxk). exact Hx1. }
+              split; [exact Hkv|]. cbn [w_nw]. rewrite cnt_fold_inc.
+              assert (0 < cnt (v_wid v) ks); [|lia]. apply cnt_pos_In. apply in_map_iff. exists x. split; [|exact Hx2].
+              symmetry. apply (Az x v); auto.
+           ++ left. unfold ScreenUrwid.flushed. cbn [w_term w_queue]. apply Hfl. split; [exact Hf|exact Hz].
+        -- right. left. exact Hf.
+        -- right. right. split; [exact Hk|]. cbn [w_nw] in *. rewrite cnt_fold_inc. lia.
+    + split; [exact Hg1|split; [exact Glt|split; [exact Gc|split; [exact Hg2|split; [exact Hq'|split]]]]].
+      * intros p Hp. unfold ScreenUrwid.flushed in Hp. cbn [w_term w_queue] in Hp. apply Hfl in Hp.
+        apply Gsub. unfold ScreenUrwid.flushed. cbn [w_term w_queue]. tauto.
+      * destruct sb as [sbf|]; [|exact I]. destruct Gsb as [Hb Hon]. split; [exact Hb|].
+        intros v p Hv Hpv. destruct (Hon v p Hv Hpv) as [Hf|[Hf|[Hk Hf]]].
+        -- destruct (in_dec Z.eq_dec (p_z p) (map (fun x : nat * wkind => kind_z (snd x)) ks)) as [Hz|Hz].
+           ++ right. right. apply in_map_iff in Hz. destruct Hz as [x [Hx1 Hx2]]. destruct (Hks x Hx2) as [Hxw Hxk].
+              destruct (view_plcs_z v p Hpv) as [Ezp _]. rewrite Ezp in Hx1.
+              assert (Hkv : is_kitty (v_kind v) = true).
+              { destruct (tracked_kind v (At v Hv)) as [Hy|[_ [Hi _]]]; [exact Hy|].
+                exfalso. rewrite Hi in Hx1. simpl in Hx1. apply (Anz x Hxw Hxk). exact Hx1. }
+              split; [exact Hkv|]. cbn [w_nw]. rewrite cnt_fold_inc.
+              assert (0 < cnt (v_wid v) ks); [|lia]. apply cnt_pos_In. apply in_map_iff. exists x. split; [|exact Hx2].
+              symmetry. apply (Az x v); auto.
+           ++ left. unfold ScreenUrwid.flushed. cbn [w_term w_queue]. apply Hfl. split; [exact Hf|exact Hz].
+        -- right. left. exact Hf.
+        -- right. right. split; [exact Hk|]. cbn [w_nw] in *. rewrite cnt_fold_inc. lia.
+Qed.
+
+(** a sequence of operations each of which is well-formed in the state it meets *)
 Fixpoint ops_wf (w : world) (ops : list sop) : Prop :=
   match ops with
   | [] => True
   | o :: rest =>
-    match o with ORedraw V _ => wf_redraw (s_prev (w_scr w)) V | OClear => True end
+    match o with
+    | ORedraw V _ => wf_redraw (s_prev (w_scr w)) V /\ count_ok w V
+    | OClear => True
+    | OApi ws _ => wf_api (s_prev (w_scr w)) ws
+    end
     /\ ops_wf (step w o) rest
   end.
 
@@ -588,7 +896,10 @@ Lemma run_good : forall ops w, good w -> ops_wf w ops -> good (run ops w).
 Proof.
   induction ops as [|o ops IH]; intros w Hg Hwf; [exact Hg|].
   destruct Hwf as [Ho Hrest]. unfold ScreenUrwid.run. simpl. apply IH; [|exact Hrest].
-  destruct o as [V base|]; [apply step_redraw_good; assumption|apply step_clear_good; assumption].
+  destruct o as [V base| |ws now].
+  - destruct Ho. apply step_redraw_good; assumption.
+  - apply step_clear_good; assumption.
+  - apply step_api_good; assumption.
 Qed.
 
 Lemma ops_wf_app : forall a b w, ops_wf w (a ++ b) -> ops_wf w a /\ ops_wf (run a w) b.
@@ -603,18 +914,61 @@ Proof. intros. unfold ScreenUrwid.run. apply fold_left_app. Qed.
 
 Lemma no_ghosts_lemma : forall ops V base,
   ops_wf world_init (ops ++ [ORedraw V base]) ->
-  forall p, In p (t_plcs (w_term (run (ops ++ [ORedraw V base]) world_init))) <-> In p (plcs_of V).
+  w_queue (run (ops ++ [ORedraw V base]) world_init) = []
+  /\ forall p, In p (t_plcs (w_term (run (ops ++ [ORedraw V base]) world_init))) <-> In p (plcs_of V).
 Proof.
-  intros ops V base Hwf. apply ops_wf_app in Hwf. destruct Hwf as [Ha [Hb _]].
+  intros ops V base Hwf. apply ops_wf_app in Hwf. destruct Hwf as [Ha [[Hb Hc] _]].
   rewrite run_app. pose proof (run_good ops world_init good_init Ha) as Hg.
-  destruct (step_redraw_good (run ops world_init) V base Hg Hb) as [_ [_ Hs]]. exact Hs.
+  destruct (step_redraw_good (run ops world_init) V base Hg Hb Hc) as [_ [_ [Hq Hs]]]. split; [exact Hq|exact Hs].
 Qed.
 
 Lemma cleared_after_clear_lemma : forall ops,
-  ops_wf world_init ops -> t_plcs (w_term (run (ops ++ [OClear]) world_init)) = [].
+  ops_wf world_init ops -> t_plcs (flushed (run (ops ++ [OClear]) world_init)) = [].
 Proof.
   intros ops Hwf. rewrite run_app. pose proof (run_good ops world_init good_init Hwf) as Hg.
   destruct (step_clear_good (run ops world_init) Hg) as [_ E]. exact E.
+Qed.
+
+(** with at most one public clear_images() call (its arguments distinct) since the last
+    redraw or clear(), the count hypothesis holds by itself: the redraw's own bookkeeping
+    changes any disguise at most once *)
+Lemma redraw_own_changes : forall w V wd,
+  redraw_nall V w + redraw_nw V w wd <= w_nall w + wdis_get wd (w_nw w) + 1.
+Proof.
+  intros w V wd. unfold redraw_nall, redraw_nw. destruct (clears_all V (w_scr w)); simpl; [lia|].
+  destruct (existsb _ _); lia.
+Qed.
+
+Lemma cnt_nodup_le1 : forall w (ks : list (nat * wkind)), NoDup (map fst ks) -> cnt w ks <= 1.
+Proof.
+  intros w ks. unfold cnt. induction ks as [|[a k] ks IH]; simpl; intro Hnd; [lia|].
+  inversion Hnd as [|? ? Hni Hnd']; subst. destruct (Nat.eqb a w) eqn:E; simpl; [|auto].
+  apply Nat.eqb_eq in E. subst a.
+  assert (C0 : cnt w ks = 0).
+  { destruct (cnt w ks) eqn:Ec; [reflexivity|]. exfalso. apply Hni. apply cnt_pos_In. lia. }
+  unfold cnt in C0. rewrite C0. lia.
+Qed.
+
+(** the count hypothesis holds by itself right after a redraw, and after a redraw followed by
+    ONE public clear_images() call whose kitty arguments are distinct *)
+Lemma count_ok_after_redraw : forall w0 V0 base0 V, count_ok (step w0 (ORedraw V0 base0)) V.
+Proof.
+  intros w0 V0 base0 V _ v _.
+  pose proof (redraw_own_changes (step w0 (ORedraw V0 base0)) V (v_wid v)) as Hc. simpl in Hc. simpl. lia.
+Qed.
+
+Lemma count_ok_after_one_api : forall w0 V0 base0 ws now V,
+  NoDup (map fst (filter (fun x : nat * wkind => is_kitty (snd x)) ws)) ->
+  count_ok (step (step w0 (ORedraw V0 base0)) (OApi ws now)) V.
+Proof.
+  intros w0 V0 base0 ws now V Hnd _ v _.
+  pose proof (redraw_own_changes (step (step w0 (ORedraw V0 base0)) (OApi ws now)) V (v_wid v)) as Hc.
+  assert (Hle : w_nall (step (step w0 (ORedraw V0 base0)) (OApi ws now))
+                + wdis_get (v_wid v) (w_nw (step (step w0 (ORedraw V0 base0)) (OApi ws now))) <= 1).
+  { destruct ws as [|x ws]; [simpl; lia|].
+    cbn [ScreenUrwid.step w_nall w_nw]. rewrite cnt_fold_inc. simpl wdis_get.
+    pose proof (cnt_nodup_le1 (v_wid v) _ Hnd). lia. }
+  lia.
 Qed.
 
 End Ghost.
